@@ -129,8 +129,11 @@ func VH_C10_close() {
 		}
 		rows = nil
 	}
-	how := vChoice("how", 4)
+	how := vChoice("how", 5)
 	switch how {
+	case 4: // drained by the non-committing call first: the committing one must still commit
+		vAssert("C10.flushall.ok", db.FlushAll(&vObj{}) == nil)
+		vAssert("C10.flushallcommit.ok", db.FlushAllAndCommit(&vObj{}) == nil)
 	case 0:
 		vAssert("C10.close.ok", db.Close() == nil)
 	case 1:
@@ -149,7 +152,7 @@ func VH_C10_close() {
 	for _, u := range gone {
 		vAssert("C10.close.deleted_not_on_disk", !vFileExists(vhObjPath(root, u)))
 	}
-	if how == 0 || how == 2 {
+	if how == 0 || how == 2 || how == 4 {
 		db3 := Open(root)
 		vhCheckReads("C10.close.fresh_handle", db3, rows)
 		vhCheckSearch("C10.close.fresh_handle", db3, rows, "A")
